@@ -11,6 +11,9 @@ EXTRA = {
  "C14-constant-pool-by-text": ["C01"], "C15-copy-in-set-only": ["C07"], "C16-ascii-fast-path-index": ["C01"], "C16-float-hashkey-as-string": ["C01"],
  "C18-deadcode-past-jump": ["C03"], "C19-field-cache-by-address": ["C04", "C07"], "C19-optimizer-error-map-order": [], "C08-calls-leak-on-failure": ["C07"],
  "C08-nil-holes-in-arrays": ["C04"],
+ # round 2
+ "C08b-calls-leak-on-panic": ["C07"], "C15b-shared-index-cell": ["C02"], "C16b-array-literal-constants": ["C01"], "C19b-keys-via-sort-helper": ["C16"],
+ "C14b-constant-pool-by-text": ["C01"], "C06b-stale-lastop": ["C18"], "C07b-fields-survive-nil-object": ["C04"], "C04b-shared-map-converted-once": ["C07"],
 }
 pref = sys.argv[1] if len(sys.argv) > 1 else ""
 rows = []
